@@ -251,3 +251,12 @@ theorem is_applicable (r : Raw) : Src.is_applicable (rawDict r) = .bool (isAppli
   is_applicable_aux r.lastRuleId r.ruleId r.reason
 
 end Rbacx.Translated
+
+#print axioms Rbacx.Translated.has_id
+#print axioms Rbacx.Translated.has_attrs
+#print axioms Rbacx.Translated.resource_types
+#print axioms Rbacx.Translated.type_matches
+#print axioms Rbacx.Translated.categorize
+#print axioms Rbacx.Translated.actions
+#print axioms Rbacx.Translated.match_actions
+#print axioms Rbacx.Translated.is_applicable
